@@ -321,4 +321,156 @@ Section Clone.
     intros H b nd' Hb m. apply abs_agree. intros x Hr.
     apply nth_error_upd_other. pose proof (clone_fresh _ _ _ _ _ H x Hr). lia.
   Qed.
+
+  (** checkStructure on pointer graphs: walk from [a] with the set of objects seen so far;
+      an object met twice (sharing or a cycle) or a dangling / nil child is an error *)
+  Fixpoint check (fuel : nat) (h : heap) (seen : list addr) (a : addr) : option (list addr) :=
+    match fuel with
+    | O => None
+    | S n =>
+        if existsb (Nat.eqb a) seen then None else
+        match nth_error h a with
+        | None => None
+        | Some nd =>
+            (fix go (ks : list (K * addr)) (seen : list addr) : option (list addr) :=
+               match ks with
+               | [] => Some seen
+               | (_, c) :: r => match check n h seen c with Some s1 => go r s1 | None => None end
+               end) (hn_kids nd) (a :: seen)
+        end
+    end.
+
+  Definition check_kids (n : nat) (h : heap) : list (K * addr) -> list addr -> option (list addr) :=
+    fix go (ks : list (K * addr)) (seen : list addr) : option (list addr) :=
+      match ks with
+      | [] => Some seen
+      | (_, c) :: r => match check n h seen c with Some s1 => go r s1 | None => None end
+      end.
+
+  Lemma check_unfold n h seen a :
+    check (S n) h seen a =
+    if existsb (Nat.eqb a) seen then None else
+    match nth_error h a with
+    | None => None
+    | Some nd => check_kids n h (hn_kids nd) (a :: seen)
+    end.
+  Proof. reflexivity. Qed.
+
+  Lemma existsb_eqb_false a seen : ~ In a seen -> existsb (Nat.eqb a) seen = false.
+  Proof.
+    intros H. destruct (existsb (Nat.eqb a) seen) eqn:E; [|reflexivity].
+    apply existsb_exists in E as (x & Hx & Heq). apply Nat.eqb_eq in Heq. subst x. contradiction.
+  Qed.
+
+  (** a successful walk only adds objects of the heap, each once *)
+  Lemma check_sound : forall n h seen a s',
+    check n h seen a = Some s' ->
+    (forall x, In x s' -> In x seen \/ x < length h) /\ (NoDup seen -> NoDup s') /\ incl seen s' /\ In a s'.
+  Proof.
+    induction n as [|n IH]; intros h seen a s' H; [discriminate|].
+    rewrite check_unfold in H. destruct (existsb (Nat.eqb a) seen) eqn:Ex; [discriminate|].
+    destruct (nth_error h a) as [nd|] eqn:En; [|discriminate].
+    assert (La : a < length h) by (apply nth_error_Some; congruence).
+    assert (Na : ~ In a seen).
+    { intros Hin. assert (existsb (Nat.eqb a) seen = true); [|congruence].
+      apply existsb_exists. exists a. split; [exact Hin|apply Nat.eqb_refl]. }
+    assert (Hk : forall ks s0 s1, check_kids n h ks s0 = Some s1 ->
+               (forall x, In x s1 -> In x s0 \/ x < length h) /\ (NoDup s0 -> NoDup s1) /\ incl s0 s1).
+    { induction ks as [|[k c] r IHr]; intros s0 s1 Hc; cbn in Hc.
+      - injection Hc as <-. repeat split; auto. apply incl_refl.
+      - destruct (check n h s0 c) as [s2|] eqn:Ec; [|discriminate].
+        destruct (IH _ _ _ _ Ec) as (B1 & N1 & I1 & _). destruct (IHr _ _ Hc) as (B2 & N2 & I2).
+        repeat split.
+        + intros x Hx. destruct (B2 x Hx) as [Hx2|]; [|now right]. apply B1. exact Hx2.
+        + auto.
+        + eapply incl_tran; eauto. }
+    destruct (Hk _ _ _ H) as (B & N & I). repeat split.
+    - intros x Hx. destruct (B x Hx) as [[<-|Hx0]|]; auto.
+    - intros Nd. apply N. constructor; assumption.
+    - eapply incl_tran; [|exact I]. apply incl_tl, incl_refl.
+    - apply I. now left.
+  Qed.
+
+  (** C20_parent: checkStructure, having walked anything that existed before the call
+      (the original tree in particular), walks the clone without meeting an object twice *)
+  Lemma clone_check : forall n h a h' a',
+    clone n h a = Some (h', a') -> forall m t, abs m h a = Some t ->
+    forall e seen, (forall x, In x seen -> x < length h \/ length h' <= x) ->
+    exists s', check m (h' ++ e) seen a' = Some s' /\
+               forall x, In x s' -> In x seen \/ length h <= x < length h'.
+  Proof.
+    induction n as [|n IH]; intros h a h' a' H m t Ha e seen Hs; [discriminate|].
+    rewrite clone_unfold in H. destruct (nth_error h a) as [nd|] eqn:En; [|discriminate].
+    destruct (clone_kids n (hn_kids nd) h) as [[h1 kids']|] eqn:Ek; [|discriminate].
+    injection H as <- <-.
+    destruct m as [|m]; [discriminate|]. rewrite abs_unfold in Ha. rewrite En in Ha.
+    destruct (abs_kids m h (hn_kids nd)) as [ts|] eqn:Ets; [|discriminate]. clear Ha.
+    assert (Hk : forall ks h0 h2 ks' ts0, clone_kids n ks h0 = Some (h2, ks') -> abs_kids m h0 ks = Some ts0 ->
+               length h0 <= length h2 /\
+               forall e0 s0, (forall x, In x s0 -> x < length h0 \/ length h2 <= x) ->
+               exists s1, check_kids m (h2 ++ e0) ks' s0 = Some s1 /\
+                          forall x, In x s1 -> In x s0 \/ length h0 <= x < length h2).
+    { induction ks as [|[k c] r IHr]; intros h0 h2 ks' ts0 Hc Hts; cbn in Hc, Hts.
+      - injection Hc as <- <-. split; [lia|]. intros e0 s0 _. exists s0. split; [reflexivity|auto].
+      - destruct (clone n h0 c) as [[h3 c']|] eqn:Ec; [|discriminate].
+        destruct (clone_kids n r h3) as [[h4 r']|] eqn:Er; [|discriminate]. injection Hc as <- <-.
+        destruct (abs m h0 c) as [tc|] eqn:Eac; [|discriminate].
+        destruct (abs_kids m h0 r) as [tr|] eqn:Ear; [|discriminate].
+        destruct (clone_P _ _ _ _ _ Ec) as [(e1 & -> & _) _].
+        destruct (IHr _ _ _ _ Er (abs_kids_ext _ _ e1 _ _ Ear)) as [L34 Hr].
+        assert (L03 : length h0 <= length (h0 ++ e1)) by (rewrite app_length; lia).
+        split; [lia|]. intros e0 s0 Hs0.
+        assert (P4 : exists e2, h4 = (h0 ++ e1) ++ e2).
+        { clear -Er IH. revert Er. generalize (h0 ++ e1) as hh. revert h4 r'.
+          induction r as [|[k1 c1] r1 IH1]; intros h4 r' hh Hx; cbn in Hx.
+          - injection Hx as <- <-. exists []. now rewrite app_nil_r.
+          - destruct (clone n hh c1) as [[h5 c1']|] eqn:E5; [|discriminate].
+            destruct (clone_kids n r1 h5) as [[h6 r1']|] eqn:E6; [|discriminate]. injection Hx as <- <-.
+            destruct (clone_P _ _ _ _ _ E5) as [(e5 & -> & _) _]. destruct (IH1 _ _ _ E6) as (e6 & ->).
+            exists (e5 ++ e6). now rewrite app_assoc. }
+        destruct P4 as (e2 & E4).
+        destruct (IH _ _ _ _ Ec _ _ Eac (e2 ++ e0) s0) as (s1 & C1 & B1).
+        { intros x Hx. destruct (Hs0 x Hx); [now left|right; lia]. }
+        destruct (Hr e0 s1) as (s2 & C2 & B2).
+        { intros x Hx. destruct (B1 x Hx) as [Hx0|Hx0]; [|left; lia].
+          destruct (Hs0 x Hx0); [left; lia|now right]. }
+        exists s2. split.
+        + cbn [check_kids]. rewrite E4, <- app_assoc, C1. rewrite E4, <- app_assoc in C2. exact C2.
+        + intros x Hx. destruct (B2 x Hx) as [Hx1|Hx1]; [|right; lia].
+          destruct (B1 x Hx1) as [Hx0|Hx0]; [now left|right; lia]. }
+    destruct (Hk _ _ _ _ _ Ek Ets) as [L01 Hkk].
+    assert (Na : ~ In (length h1) seen).
+    { intros Hin. destruct (Hs _ Hin) as [Hl|Hl]; [lia|]. rewrite app_length in Hl. cbn in Hl. lia. }
+    rewrite check_unfold, (existsb_eqb_false _ _ Na).
+    rewrite <- app_assoc. rewrite nth_error_app2 by apply Nat.le_refl. rewrite Nat.sub_diag.
+    cbn [nth_error app hn_kids].
+    destruct (Hkk ([mkNode (hn_data nd) kids'] ++ e) (length h1 :: seen)) as (s1 & C1 & B1).
+    { intros x [<-|Hx]; [now right|]. destruct (Hs x Hx) as [Hl|Hl]; [now left|].
+      rewrite app_length in Hl. cbn in Hl. right; lia. }
+    exists s1. split; [exact C1|].
+    intros x Hx. rewrite app_length. cbn. destruct (B1 x Hx) as [[<-|Hx0]|Hx0]; [right; lia|now left|right; lia].
+  Qed.
+
+  Theorem clone_parent n h a h' a' m t seen s1 :
+    clone n h a = Some (h', a') -> abs m h a = Some t ->
+    (forall x, In x seen -> x < length h) -> NoDup seen ->
+    check m h seen a = Some s1 ->
+    exists s2, check m h' s1 a' = Some s2 /\ NoDup s2 /\ In a s2 /\ In a' s2.
+  Proof.
+    intros Hc Ha Hs Nd Hck.
+    destruct (check_sound _ _ _ _ _ Hck) as (B & N & I & Ia).
+    destruct (clone_check _ _ _ _ _ Hc _ _ Ha [] s1) as (s2 & C2 & _).
+    { intros x Hx. left. destruct (B x Hx) as [Hx0|]; [auto|assumption]. }
+    rewrite app_nil_r in C2. exists s2. split; [exact C2|].
+    destruct (check_sound _ _ _ _ _ C2) as (_ & N2 & I2 & Ia2). auto.
+  Qed.
+
+  (** sharing and cycles are rejected: an object already seen ends the walk with an error *)
+  Lemma check_rejects_seen n h seen a : In a seen -> check n h seen a = None.
+  Proof.
+    intros Hin. destruct n as [|n]; [reflexivity|]. rewrite check_unfold.
+    assert (E : existsb (Nat.eqb a) seen = true).
+    { apply existsb_exists. exists a. split; [exact Hin|apply Nat.eqb_refl]. }
+    now rewrite E.
+  Qed.
 End Clone.
